@@ -69,6 +69,7 @@ def items(tier, seed):
             for merge in ((False,) if join == "none" else (False, True)):
                 for same_meas in ((False,) if join == "none" else (False, True)):
                     out.append(("combine", pi, join, merge, same_meas))
+    out.append(("merge", None))
     out.append(("refuse", "channel"))
     out.append(("refuse", "measurement"))
     out.append(("refuse", "parameter"))
@@ -499,7 +500,37 @@ def harness_for(item):
         for k, v in enumerate(variants):
             env.holds(f"canonical[{k}]", _same_structure(dict(S), dict(pyhf.Workspace.sorted(pyhf.Workspace(v)))), key="sorted:canonical")
 
-    return {"combine": combine, "refuse": refuse, "prune": prune, "rename": rename, "sorted": sorted_}[kind]
+    def merge(env):
+        """overlapping channel names with merge_channels=True: samples of both sides present, inputs untouched"""
+        env.install_backend()
+        wl = _ws(env, prefix="L_", meas="measL", chans=[channel("SR", sample("sigA", 2, normfactor(), normsys("xs"))), channel("CRL", sample("b", 1, normfactor("nb")))])
+        wr = _ws(env, prefix="R_", meas="measR", chans=[channel("SR", sample("sigB", 2, normfactor(), histosys("h", 2)))])
+        # the shared channel carries one observation: make them identical objects so that only the samples differ
+        wr["observations"][0] = copy.deepcopy(wl["observations"][0])
+        for join in ("outer", "left outer", "right outer"):
+            bl, br = copy.deepcopy(wl), copy.deepcopy(wr)
+            WL, WR = pyhf.Workspace(wl), pyhf.Workspace(wr)
+            sl, sr = copy.deepcopy(dict(WL)), copy.deepcopy(dict(WR))
+            try:
+                WC = pyhf.Workspace.combine(WL, WR, join=join, merge_channels=True)
+            except Exception as e:  # noqa: BLE001
+                env.fail(f"merge[{join}]", f"{type(e).__name__}: {str(e)[:120]}", key=f"merge:{join}:refused")
+                continue
+            env.holds(f"merge[{join}]:inputs-untouched", _same_structure(bl, wl) and _same_structure(br, wr) and _same_structure(sl, dict(WL)) and _same_structure(sr, dict(WR)),
+                      key=f"merge:{join}:no-mutation")
+            sr_ = [c for c in WC["channels"] if c["name"] == "SR"]
+            env.holds(f"merge[{join}]:one-merged-channel", len(sr_) == 1, key=f"merge:{join}:content")
+            if len(sr_) == 1:
+                got = {s["name"]: s for s in sr_[0]["samples"]}
+                env.holds(f"merge[{join}]:samples", sorted(got) == ["sigA", "sigB"], key=f"merge:{join}:content")
+                if sorted(got) == ["sigA", "sigB"]:
+                    env.holds(f"merge[{join}]:sample-content", _same_structure(got["sigA"], wl["channels"][0]["samples"][0]) and _same_structure(got["sigB"], wr["channels"][0]["samples"][0]), key=f"merge:{join}:content")
+            # the inputs still build their own models afterwards
+            for nm, W, nsamp in (("left", WL, ["b", "sigA"]), ("right", WR, ["sigB"])):
+                m = W.model()
+                env.holds(f"merge[{join}]:{nm}-model-samples", sorted(m.config.samples) == nsamp, key=f"merge:{join}:no-mutation")
+
+    return {"combine": combine, "refuse": refuse, "prune": prune, "rename": rename, "sorted": sorted_, "merge": merge}[kind]
 
 
 def _present(w, sel):
